@@ -68,12 +68,18 @@ def c_check(reg, kind="check_region"):
     return _mk("check", [list(reg)], f"check_region {C.enc(list(reg))}", kind)
 
 
+def _exl(extra):
+    if extra is None:
+        return []
+    return [float(v) for v in extra] if isinstance(extra, (list, tuple)) else [float(extra)]
+
+
 def c_scatter(reg, size, seed, extra, kind="scatter"):
     rs = np.random.RandomState(seed)
     ue = rs.random_sample(size).tolist()
     un = rs.random_sample(size).tolist()
     return _mk("scatter", [list(reg), size, seed, extra],
-               f"scatter {C.enc(list(reg))} {C.enc(ue)} {C.enc(un)} {C.enc(extra or [])}", kind)
+               f"scatter {C.enc(list(reg))} {C.enc(ue)} {C.enc(un)} {C.enc(_exl(extra))}", kind)
 
 
 def c_maxabs(arrays, kind="maxabs"):
@@ -147,6 +153,8 @@ def generate(rng, tier):
                 cs.append(c_check(list(reg)[: rng.choice([0, 2, 3])] if rng.random() < 0.5 else list(reg) + [1.0], "check-invalid"))
         elif u < 0.82:
             extra = None if rng.random() < 0.6 else [G.number(rng) for _ in range(rng.randint(1, 2))]
+            if rng.random() < 0.15:
+                extra = rng.choice([0.0, 0, -0.0, 12.5, [0.0], [0, 3.0]])       # bare scalars, zeros included
             cs.append(c_scatter(reg, rng.randint(1, 30), rng.randint(0, 10**6), extra))
         elif u < 0.92:
             arrays = []
@@ -302,12 +310,12 @@ def oracle(case, io):
             return None if C.is_err(io) and io[1] == "ValueError" else "invalid region accepted by scatter_points"
         if C.is_err(io):
             return "scatter_points failed: " + io[1]
-        if len(io) != 2 + len(a[3] or []) or any(len(v) != a[1] for v in io):
+        if len(io) != 2 + len(_exl(a[3])) or any(len(v) != a[1] for v in io):
             return "scatter_points returned the wrong number/size of arrays"
         for e, n in zip(io[0], io[1]):
             if not (reg[0] <= e <= reg[1] and reg[2] <= n <= reg[3]):
                 return f"scattered point ({e}, {n}) outside region {reg}"
-        for k, v in enumerate(a[3] or []):
+        for k, v in enumerate(_exl(a[3])):
             if any(x != v for x in io[2 + k]):
                 return "extra coordinate not constant"
         return None
